@@ -303,7 +303,11 @@ func (m Message) GetMetaSeqData(bt *[]byte) bool {
 	}
 
 	if bt != nil {
-		data := m.metaDataWithoutVarlength()
+		// the length of the data is a variable length quantity (more than one byte from 128 bytes on)
+		data, err := utils.ReadVarLengthData(bytes.NewReader(m[2:]))
+		if err != nil {
+			return false
+		}
 		*bt = data
 	}
 	return true
